@@ -642,9 +642,10 @@ def mll_model_lines(script, il, variant, backend):
     version / broken tree: fails after cgio_open_file), not from what the implementation answered -- except where the
     answer legitimately depends on facts outside the table model: a data file that contains link nodes (a dangling or
     circular link makes cgi_read fail) and, on HDF5, a file that is already open through another handle (libhdf5 refuses
-    conflicting reopens).  There the class (fails in cgio / fails later) is read off n_cgns_files."""
+    conflicting reopens).  There, and for the files of the refused-open families whose class is not known in advance, the class (fails in cgio / fails
+    later) is read off n_cgns_files and file_number_offset."""
     m_in, impl = ["variant " + variant], []
-    writing, has_links, open_files, nfiles_prev = {}, set(), {}, 0
+    writing, has_links, open_files, nfiles_prev, off_prev = {}, set(), {}, 0, 0
     for op, l in zip(script, il):
         t = op.split()
         if t[0] == "link" and t[1] in writing:
@@ -654,11 +655,14 @@ def mll_model_lines(script, il, variant, backend):
             d = fields(l)
             ok = l.startswith("open 0")
             nfiles = int(d["mll"].split()[2]) if "mll" in d else nfiles_prev
+            off = int(d["mll"].split()[4]) if "mll" in d else off_prev
             oc = "ok"
             if f in SPECIAL and f not in READOFF:
                 oc = "latefail" if SPECIAL[f] in LATE else "cgiofail"
             elif not ok and (f in has_links or f in READOFF or f >= 30 or (backend == "hdf5" and f in open_files.values())):
-                oc = "latefail" if nfiles > nfiles_prev else "cgiofail"
+                # an entry of cgns_files[] was taken (and stays while other files are open), or the emptied table was released
+                # (file_number_offset moves on): the open got past cgio_open_file
+                oc = "latefail" if (nfiles > nfiles_prev or off > off_prev) else "cgiofail"
             if ok:
                 open_files[t[1]] = f
                 if t[3] == "w":
@@ -672,7 +676,7 @@ def mll_model_lines(script, il, variant, backend):
             continue
         d = fields(l)
         if "mll" in d:
-            nfiles_prev = int(d["mll"].split()[2])
+            nfiles_prev = int(d["mll"].split()[2]); off_prev = int(d["mll"].split()[4])
         impl.append(l.split(" | ")[0] + " | " + d.get("mll", ""))
     ml = vlib.run_model("c17", "\n".join(m_in) + "\n", args=["mll"])
     return ml, impl
@@ -840,18 +844,44 @@ def refused_pool(work):
     return pool, stats
 
 
-def gen_io_refused(rng, pool, backend, nx=6, k=3):
+def refusal_group(f):
+    """(kind, which field was damaged how): one group per refusal branch and way of reaching it"""
+    d = f["desc"]
+    if d.startswith(("fileheader.what", "fileheader.format")):
+        g = d
+    elif d.startswith("truncate"):
+        g = "truncate"
+    else:
+        g = d.split("=")[0].split("->")[0].rstrip("0123456789")
+    return (f["kind"] or "", g, f["base"].split(".")[-1] if not f["kind"] else "")
+
+
+class Picker:
+    """hands out files of the pool group by group, round robin (the order of the groups is seeded): every group is used once
+    before any is used twice, so a run covers every refusal group at every level"""
+    def __init__(self, rng, pool, need_kind):
+        self.rng, self.groups = rng, {}
+        for f in pool:
+            if f["kind"] or not need_kind:
+                self.groups.setdefault(refusal_group(f), []).append(f)
+        self.order = sorted(self.groups)
+        rng.shuffle(self.order)
+        self.pos, self.used = 0, {}
+
+    def take(self, n):
+        out = []
+        for _ in range(n):
+            g = self.order[self.pos % len(self.order)]
+            self.pos += 1
+            self.used[g] = self.used.get(g, 0) + 1
+            out.append(self.rng.choice(self.groups[g]))
+        return out
+
+
+def gen_io_refused(rng, chosen, backend, k=3):
     """cgio level: a world of two good files (0 links to 1 and to some refused files), one file of each fixed refused kind and
     nx files of the pool; every refused file is opened k times (read and modify) between uses of the good files; also the name
     that is too long (index 63) and a missing one.  -> (world, ops, files)"""
-    cand = [f for f in pool if f["kind"] or backend == "hdf5"]
-    if backend == "adf":
-        cand = [f for f in cand if f["kind"]]
-    byk = {}
-    for f in cand:
-        byk.setdefault(f["kind"], []).append(f)
-    chosen = [rng.choice(byk[kk]) for kk in rng.sample(sorted(byk, key=str), min(len(byk), nx // 2))]
-    chosen += rng.sample(cand, min(len(cand), nx - len(chosen)))
     kinds = ["ok", rng.choice(["ok", "okB", "okL"])] + ["empty", "garbage", "dir", "missing", "badhdr"]
     files = {}
     for f in chosen:
@@ -881,10 +911,9 @@ def gen_io_refused(rng, pool, backend, nx=6, k=3):
     return world, ops, files
 
 
-def gen_mll_refused(rng, pool, backend, nx=8, k=3):
+def gen_mll_refused(rng, chosen, backend, k=2):
     """MLL level: cg_open of refused files (every special kind of the harness, the name that is too long, nx files of the pool incl.
     those refused only behind cgio_open_file) k times each, read and modify mode, between opens / reads / closes of a good file"""
-    chosen = rng.sample(pool, min(len(pool), nx))
     files = {30 + i: f["data"] for i, f in enumerate(chosen)}
     special = [10, 11, 12, 13, 14, 15, 16, 17, 18, 99]
     todo = [f for f in (sorted(files) + special) for _ in range(k)]
@@ -980,7 +1009,8 @@ def run(ck):
     findings, corr_broken = {}, []
     stats = {"io_sessions": {"adf": 0, "hdf5": 0}, "io_features": {}, "io_ops": 0, "states_compared": 0,
              "mll_sessions": {"adf": 0, "hdf5": 0}, "mll_shapes": {}, "mll_ops": 0, "mll_cycles": 0, "mll_tables_compared": 0,
-             "failing_opens_checked": 0, "leak_checks": 0, "finding_hits": {}}
+             "failing_opens_checked": 0, "leak_checks": 0, "finding_hits": {},
+             "refusal_codes": {"agree": 0, "differ": 0, "samples": []}}
 
     def note(key, desc, replay):
         stats["finding_hits"][key or "UNCLASSIFIED"] = stats["finding_hits"].get(key or "UNCLASSIFIED", 0) + 1
@@ -1028,9 +1058,11 @@ def run(ck):
     # refused opens: every refusal branch of the open paths, files derived with the C13 machinery (refused_pool)
     rpool, stats["refused_pool"] = refused_pool(ck.work)
     nref = 30 if big else 6
+    pick = {"adf": Picker(ck.rng, rpool, True), "hdf5": Picker(ck.rng, rpool, False), "mll-adf": Picker(ck.rng, rpool, False),
+            "mll-hdf5": Picker(ck.rng, rpool, False)}
     for i in range(nref):
         for be in ("adf", "hdf5"):
-            world, ops, files = gen_io_refused(ck.rng, rpool, be, nx=8 if big else 6)
+            world, ops, files = gen_io_refused(ck.rng, pick[be].take(8), be)
             futs.append(pool.submit(io_case, hio, world, ops, be, ck.work, "ior%s%d" % (be[0], i), variant if (res["ok"] and be == "adf") else None, 1, files))
     for fu in futs:
         r = fu.result()
@@ -1068,6 +1100,17 @@ def run(ck):
         ck.case(hashlib.sha1((r["world"] + "|".join(r["ops"]) + r["backend"]).encode()).hexdigest() if (feats or r["backend"] == "hdf5" and ">" in r["world"]) else None,
                 sample={"level": "cgio", "backend": r["backend"], "world": r["world"], "ops": r["ops"][:8]})
         verdicts = io_oracle(r)
+        if r["files"]:
+            # cross-check with the C13 model (not a verdict of this property): a file it classifies x<code> is refused with that code
+            kinds = r["world"].split()[1].split(",")
+            for op, l in zip(r["script"], r["impl"]):
+                t = op.split()
+                if t[0] == "open" and int(t[1]) < len(kinds) and re.fullmatch(r"x\d+", kinds[int(t[1])]) and " | ec " in l:
+                    ec = l.split(" | ec ")[1].split()[0]
+                    same_code = ec == kinds[int(t[1])][1:]
+                    stats["refusal_codes"]["agree" if same_code else "differ"] += 1
+                    if not same_code and len(stats["refusal_codes"]["samples"]) < 5:
+                        stats["refusal_codes"]["samples"].append({"backend": r["backend"], "op": op, "c13_model": kinds[int(t[1])][1:], "library": ec})
         if r["backend"] == "hdf5" and res["ok"] and r["outcome"] == "ok":
             ncl, hb = h5_census(r)
             stats["h5_closes_compared"] = stats.get("h5_closes_compared", 0) + ncl
@@ -1095,7 +1138,9 @@ def run(ck):
     # sizes around the growth steps of the zone maps (8, 16, 32, ... slots, two thirds usable)
     fd += [fill_drain(be, v, n, ["zone", "pzone"]) for be in ("adf", "hdf5") for v in ("same", "reopen") for n in ((1, 5, 6, 11, 22, 300) if big else (1, 6, 43))]
     nfd = len(fd)
-    fd += [gen_mll_refused(ck.rng, rpool, be, nx=12 if big else 8) for be in ("adf", "hdf5") for _ in range(6 if big else 2)]
+    fd += [gen_mll_refused(ck.rng, pick["mll-" + be].take(16), be) for be in ("adf", "hdf5") for _ in range(6 if big else 2)]
+    stats["refused_pool"]["groups"] = {k: len(v.groups) for k, v in pick.items()}
+    stats["refused_pool"]["groups_used_at_least_once"] = {k: len(v.used) for k, v in pick.items()}
     nfd = len(fd)
     scs = scs[:nc] + [long_session("adf"), long_session("hdf5")] + fd + scs[nc:]
     ncyc = lambda i: 3 if i < nc else (200 if big else 25) if i < nc + 2 else (12 if big else 4) if i < nc + 2 + nfd else cyc
@@ -1146,6 +1191,17 @@ def run(ck):
                     rr = io_oracle(io_case(hio, rep["world"], small, rep["backend"], ck.work, "shr", files=rep_files(rep)))
                     if same(rr):
                         rep = dict(rep, ops=small, ops_before_shrinking=len(rep["ops"]), failure=[dd for kk, dd in rr if kk is None][0])
+                elif rep["level"] == "mll" and len(rep["body"]) > 8:
+                    def mfails(body, rep=rep):
+                        sc2 = {"prep": rep["prep"], "body": body, "backend": rep["backend"], "shape": "shrink", "nfiles": 0, "files": rep_files(rep)}
+                        try:
+                            return mll_oracle(mll_case(hml, sc2, ck.work, "shr", 3))
+                        except vlib.Infra:
+                            return []
+                    small = vlib.ddmin(rep["body"], lambda b: same(mfails(b)), max_tests=50)
+                    rr = mfails(small)
+                    if same(rr):
+                        rep = dict(rep, body=small, body_before_shrinking=len(rep["body"]), failure=[dd for kk, dd in rr if kk is None][0])
             except vlib.Infra:
                 pass
             ck.violation(rep)
